@@ -467,7 +467,13 @@ func visitInstr(fr *frame, instr ssa.Instruction) continuation {
 
 	case *ssa.Store:
 		addr := fr.nilCheck(fr.get(instr.Addr).(*value))
-		if i.sched != nil && i.cfg.Race {
+		// go/ssa lowers `return x` in a function with named results to "x' = *x; *x = x'": a store of the
+		// value just loaded from the same variable, which the compiler never emits - not an access of the program
+		selfStore := false
+		if u, ok := instr.Val.(*ssa.UnOp); ok && u.Op == token.MUL && u.X == instr.Addr {
+			selfStore = true
+		}
+		if i.sched != nil && i.cfg.Race && !selfStore {
 			i.raceAccess(fr, addr, true)
 		}
 		i.store(mustDeref(instr.Addr.Type()), addr, fr.get(instr.Val))
